@@ -7,7 +7,9 @@
      [implies], [is_min_sigs], [evalC], [paths]/[has_mixed_path].
    Where the faithful model violates the full-strength statement there is a [_refuted] theorem with
    the witness (a finding about the code, listed in known_findings.txt) next to the strongest
-   variant that holds. *)
+   variant that holds.  Three earlier findings (entails on un-normalized arguments, And lifted
+   2-of-n, syntactic mixed-time-lock check) are repaired in /repo; their theorems are now the
+   full statements. *)
 From Coq Require Import List NArith Bool Arith.
 Import ListNotations.
 From Verif Require Import PolSemantic PolConcrete PolTruth
@@ -82,32 +84,14 @@ Proof. exact min_keys_sound. Qed.
 Print Assumptions C18_min_keys_sound.
 
 (* ---------------------------------------------------------------- entails *)
-(* full statement:  n_terminals p <= 20 -> entails p q = ESome b -> (b = true <-> implies p q)
-   — false on the code as it is (Unsatisfiable/Trivial are matched before normalizing): *)
-Theorem C18_entails_exact_refuted :
-  exists a b, wf a = true /\ wf b = true /\ entails a b = ESome false /\ implies a b.
-Proof. exact entails_exact_refuted. Qed.
-Print Assumptions C18_entails_exact_refuted.
-
-(* exact outside the class [entails_defect]; in particular on normalized arguments *)
-Theorem C18_entails_exact_except : forall a b,
-  entails_defect a b = false -> n_terminals a <= ENTAILMENT_MAX_TERMINALS ->
+(* entailment answers agree with truth-table implication (atoms independent), every pair of
+   arguments up to the terminal guard  [repaired in /repo 51c85bfb: arguments are normalized
+   before Unsatisfiable/Trivial are matched] *)
+Theorem C18_entails_exact : forall a b,
+  n_terminals a <= ENTAILMENT_MAX_TERMINALS ->
   exists r, entails a b = ESome r /\ (r = true <-> implies a b).
-Proof. exact entails_exact_except. Qed.
-Print Assumptions C18_entails_exact_except.
-
-Theorem C18_entails_exact_normal : forall a b,
-  is_normal a = true -> is_normal b = true -> n_terminals a <= ENTAILMENT_MAX_TERMINALS ->
-  exists r, entails a b = ESome r /\ (r = true <-> implies a b).
-Proof. exact entails_exact_normal. Qed.
-Print Assumptions C18_entails_exact_normal.
-
-(* inside the class the answer is always the wrong one *)
-Theorem C18_entails_defect_wrong : forall a b,
-  entails_defect a b = true -> n_terminals a <= ENTAILMENT_MAX_TERMINALS ->
-  entails a b = ESome false /\ implies a b.
-Proof. exact entails_defect_wrong. Qed.
-Print Assumptions C18_entails_defect_wrong.
+Proof. exact entails_exact. Qed.
+Print Assumptions C18_entails_exact.
 
 (* the recursion terminates within the fuel of the model, no panic site or debug assertion is
    reached, None exactly above 20 terminals *)
@@ -128,49 +112,48 @@ Proof. exact entails_worlds_incomplete. Qed.
 Print Assumptions C18_entails_worlds_incomplete.
 
 (* ---------------------------------------------------------------- lift of concrete policies *)
-(* full statement:  cwf p = true -> lift p = LOk s -> forall rho, evalA rho s = evalC rho p
-   — false on the code as it is (And lifts with the constant threshold 2; a 1-ary And panics): *)
-Theorem C18_concrete_lift_refuted :
-  (exists p s rho, cwf p = true /\ lift p = LOk s /\ evalA rho s <> evalC rho p) /\
-  (exists p, cwf p = true /\ lift p = LPanic 1).
-Proof. exact concrete_lift_refuted. Qed.
-Print Assumptions C18_concrete_lift_refuted.
+(* concrete policies lift to equivalent abstract ones: every policy, every arity of And / Or
+   (0 and 1 included), every assignment; the result is normalized; no panic outcome exists
+   [repaired in /repo 780a529d] *)
+Theorem C18_concrete_lift : forall p s, lift p = LOk s ->
+  is_normal s = true /\ forall rho, evalA rho s = evalC rho p.
+Proof. exact (fun p s E => conj (lift_normal p s E) (fun rho => concrete_lift rho p s E)). Qed.
+Print Assumptions C18_concrete_lift.
 
-(* holds when every And has exactly two children (all the string parser can build) *)
-Theorem C18_concrete_lift_binary : forall p s,
-  and_arity_bad p = false -> lift p = LOk s -> forall rho, evalA rho s = evalC rho p.
-Proof. exact concrete_lift_binary. Qed.
-Print Assumptions C18_concrete_lift_binary.
+(* when lift refuses: exactly when check_timelocks rejects some sub-policy *)
+Theorem C18_lift_refusal : forall p, lift p = LErrTimelock <-> any_sub_rejected p = true.
+Proof. exact lift_refusal. Qed.
+Print Assumptions C18_lift_refusal.
 
-(* what lift computes in general, that its result is normalized, and when it refuses *)
-Theorem C18_concrete_lift_general : forall p,
-  (forall s, lift p = LOk s -> is_normal s = true /\ forall rho, evalA rho s = evalC2 rho p) /\
+(* full statement:  forall p, lift p = LErrTimelock <-> check_timelocks p = false
+   — false on the code as it is now: lift re-runs the check inside unsatisfiable branches that
+   check_timelocks ignores since b588aa3a, and so refuses a satisfiable policy without any
+   mixing path *)
+Theorem C18_lift_refusal_exact_refuted :
+  exists p, cwf p = true /\ check_timelocks p = true /\ lift p = LErrTimelock /\
+            paths p <> [] /\ ~ has_mixed_path p.
+Proof. exact lift_refusal_exact_refuted. Qed.
+Print Assumptions C18_lift_refusal_exact_refuted.
+
+(* _partial: holds outside the class [lift_refusal_defect] (missing: the class itself) *)
+Theorem C18_lift_refusal_exact_partial : forall p, lift_refusal_defect p = false ->
   (lift p = LErrTimelock <-> check_timelocks p = false).
-Proof.
-  exact (fun p => conj (fun s E => conj (lift_normal p s E) (fun rho => lift_eval rho p s E))
-                       (lift_err_iff p)).
-Qed.
-Print Assumptions C18_concrete_lift_general.
+Proof. exact lift_err_iff. Qed.
+Print Assumptions C18_lift_refusal_exact_partial.
 
 (* ---------------------------------------------------------------- mixed time locks *)
-(* never misses: some satisfying path needs a height- and a time-based lock of one kind
-   => check_timelocks rejects (all policies) *)
-Theorem C18_mixed_sound : forall p, has_mixed_path p -> check_timelocks p = false.
-Proof. exact mixed_sound. Qed.
-Print Assumptions C18_mixed_sound.
-
-(* full statement:  cwf p = true -> (check_timelocks p = false <-> has_mixed_path p)
-   — false on the code as it is (the check is syntactic): *)
-Theorem C18_mixed_exact_refuted :
-  exists p, cwf p = true /\ check_timelocks p = false /\ ~ has_mixed_path p.
-Proof. exact mixed_exact_refuted. Qed.
-Print Assumptions C18_mixed_exact_refuted.
-
-(* exact when every sub-policy is satisfiable *)
-Theorem C18_mixed_exact : forall p, cwf p = true -> all_sat p = true ->
+(* the mixed-time-lock check fires exactly when some satisfying path needs both a height-based
+   and a time-based lock of the same kind: every policy whose thresholds respect 1 <= k <= n
+   (the invariant of the Threshold type)  [repaired in /repo b588aa3a] *)
+Theorem C18_mixed_exact : forall p, cwf p = true ->
   (check_timelocks p = false <-> has_mixed_path p).
 Proof. exact mixed_exact. Qed.
 Print Assumptions C18_mixed_exact.
+
+(* the soundness direction needs no hypothesis at all *)
+Theorem C18_mixed_sound : forall p, has_mixed_path p -> check_timelocks p = false.
+Proof. exact mixed_sound. Qed.
+Print Assumptions C18_mixed_sound.
 
 (* ---------------------------------------------------------------- the per-run oracle *)
 (* the executable truth-table checks that Tables/PolicyCasesCheck.v applies to the
@@ -190,16 +173,20 @@ Qed.
 Print Assumptions C18_oracle_decides.
 
 (* ---------------------------------------------------------------- non-vacuity *)
-Example C18_nonvacuous_normal :
+Example C18_nonvacuous_semantic :
   is_normal (SThresh 2 [SKey 0; SThresh 1 [SKey 1; SOlder 5]; SAfter 100]) = true /\
-  entails_defect (SThresh 2 [SKey 0; SKey 1]) (SThresh 1 [SKey 0; SKey 2]) = false /\
   entails (SThresh 2 [SKey 0; SKey 1]) (SThresh 1 [SKey 0; SKey 2]) = ESome true /\
-  entails (SThresh 1 [SKey 0; SKey 2]) (SThresh 2 [SKey 0; SKey 1]) = ESome false.
+  entails (SThresh 1 [SKey 0; SKey 2]) (SThresh 2 [SKey 0; SKey 1]) = ESome false /\
+  entails STriv (SThresh 1 [STriv; SKey 0]) = ESome true /\
+  entails (SThresh 2 [SUnsat; SKey 0]) (SKey 1) = ESome true.
 Proof. vm_compute. repeat split; reflexivity. Qed.
 Example C18_nonvacuous_concrete :
   let p := CThresh 2 [COlder 5; COlder 4194309; CKey 0] in
-  cwf p = true /\ all_sat p = true /\ and_arity_bad p = false /\ check_timelocks p = false /\
-  lift (CAnd [CKey 0; COr [CKey 1; COlder 5]]) = LOk (SThresh 2 [SKey 0; SThresh 1 [SKey 1; SOlder 5]]) /\
+  cwf p = true /\ check_timelocks p = false /\
+  check_timelocks (CAnd [CAfter 1; CAnd [CAfter 500000001; CUnsat]]) = true /\
+  lift (CAnd [CKey 0; CKey 1; CKey 2]) = LOk (SThresh 3 [SKey 0; SKey 1; SKey 2]) /\
+  lift (CAnd [CKey 0]) = LOk (SKey 0) /\ lift (CAnd []) = LOk STriv /\ lift (COr []) = LOk SUnsat /\
+  lift_refusal_defect (CAnd [CKey 0; COr [CKey 1; COlder 5]]) = false /\
   NoDup (keys_of (SThresh 2 [SKey 0; SKey 1; SKey 2])) /\ min_keys (SThresh 2 [SKey 0; SKey 1; SKey 2]) = Some 2.
 Proof.
   cbv zeta. repeat split; try reflexivity.
